@@ -26,19 +26,19 @@ CLAIMS = {
             "Every record template is enumerated; field counts and slot origins match the Tecan grammar table; every hole fed by a text argument is dominated by a ';'(+length) rejection and every numeric hole by a type-establishing guard or conversion; rejections precede appends; set_diti's discriminator matches only the break record. Parser round trip not decided.", "4/C09"),
     "C10": ("finite tables (enum, int_to_tip), fold idempotence, guard dominance",
             "Tip enum values are 2**(n-1), int_to_tip maps exactly 1..8, every fold of tips into a mask is idempotent (sum(set) / |=), Tip.Any is rejected inside collections and maps to the empty field alone, EVO slot list equals the enum table.", "4/C10"),
-    "C11": ("history ownership, snapshot rule, exactly-once log, counter/condense canonical forms",
-            "Only __init__/log/condense_log touch the history; stored values are copies; log exactly once after the last write; step counter += 1 once per executed pair and handed to condense_log unconditionally (2n same-labware); condense_log guarded against n == 0; LVH summands clamped; report iterates everything.", "4/C11"),
+    "C11": ("history ownership, snapshot rule, exactly-once log, counter/condense canonical forms, bounded finite-model evaluation of the LVH counter equations",
+            "Only __init__/log/condense_log touch the history; stored values are copies; log exactly once after the last write; step counter += 1 once per executed pair and handed to condense_log unconditionally (2n same-labware); condense_log guarded against n == 0; the LVH counter equations read off the CFG equal sum(max(len(steps)-1,0)) on a finite table of 930 step-list length scenarios (bounded, evaluated by the checker's own expression evaluator, nothing of the repo is run); report iterates everything.", "4/C11"),
     "C13": ("must-precede, argument-origin equality, interval cross-check of guard/message/docstring, sibling differ",
             "evo_aspirate/evo_dispense track before emitting and hand the same wells/volumes/tips to tracking and formatter; validators reject non-ascending/duplicate tips and wells; every range guard agrees with its own error message and docstring; template slots carry the same-named validator outputs; aspirate/dispense siblings agree. Decoded per-well volumes not decided.", "4/C13"),
     "C14": ("guard dominance, rounding provenance, budget-guard existence, parallel-list integrity",
             "No state is stored before the feasibility check; all plan volumes have an integral-rounding origin and are dominated by the min_transfer test; serial sources range over already planned columns and a remaining-volume guard dominates every draw; to_worklist pairs volumes/columns from the same instruction. Plan arithmetic not decided.", "4/C14"),
     "C15": ("polynomial index maps + substitution for inverse laws, sibling shape rule, RNG ownership",
             "Index maps of shift/unshift/rotate read off the loops equal the specified polynomials, compositions reduce to identity by substitution, fit guard canonical, all six transforms flatten->map->reshape, only the seeded RandomState is used.", "4/C15"),
-    "C16": ("override-set rule + canonical statement-level sibling differ with two named exceptions",
+    "C16": ("override-set rule + canonical statement-level sibling differ with two named exceptions; reuse of the history-count and pairing rules for both transfer copies",
             "Device classes override only __init__ (pure delegation), _get_well_position, transfer (+evo_*); the two transfer copies are equal after canonicalisation modulo the deprecated wash_scheme=None block and the class of non-volume rejections; numbering differs only on troughs; base refuses.", "4/C16"),
     "C17": ("abstract evaluation of the open()/write() configuration, guard strength",
             "save() truncates ('w'), effective separator CRLF, Latin-1, writes exactly the join over self once; extension guard is a suffix test; __enter__ clears, __exit__ saves; __str__/__repr__ join the records.", "4/C17"),
-    "C18": ("same-key/same-permutation origin rules, truth table of the auto decision",
+    "C18": ("same-key/same-permutation origin rules, exhaustive scenario table of the loop-free auto decision",
             "Grouping appends s,d,v of one zip element under one key without skipping; one argsort permutation of the partitioning side indexes all three lists; groups in sorted key order; decision table and mode validation exact.", "4/C18"),
     "C19": ("guard dominance + repeat/truncate idiom table",
             "Type/negativity/emptiness guards dominate the return; wells flattened column-major; result is (L * k)[:n] with k*len(L) >= n for all n.", "4/C19"),
